@@ -428,14 +428,16 @@ class Program:
             if r.returncode != 0:
                 raise FactsError("serde-attrs failed: " + r.stderr[-2000:])
             with open(cache + ".tmp", "w") as f:
-                f.write(r.stdout)
+                for line in r.stdout.splitlines():
+                    o = json.loads(line)
+                    o["file"] = os.path.relpath(o["file"], REPO)     # snapshots are shared between copies of the tree
+                    f.write(json.dumps(o) + "\n")
             os.replace(cache + ".tmp", cache)
         out = {}
         with open(cache) as f:
             for line in f:
                 o = json.loads(line)
-                rel = os.path.relpath(o["file"], REPO)
-                out[(rel, o["name"], o["line"])] = o
+                out[(o["file"], o["name"], o["line"])] = o
         self._serde = out
         return out
 
